@@ -89,6 +89,115 @@ def _same(a, b) -> bool | None:
     return terms_equal(a, b)
 
 
+def _alternatives_of(it, e: ast.expr) -> tuple[str, str] | None:
+    """(which alternatives the collection holds, its text with single-definition locals looked through) when that is known:
+    'members' (the alternatives of one nest), 'alone' (the alternatives in no nest), 'all' (the whole choice set: the choice
+    set of the nests, the keys of the utilities or of the availabilities); None for anything else"""
+    import re
+
+    text = it._loop_name(e)
+    if re.fullmatch(r'\w+\.(list_of_alternatives|dict_of_alpha(\.(items|keys)\(\))?)', text):
+        return 'members', text
+    if text == f'{it.nests}.alone':
+        return 'alone', text
+    if text == f'{it.nests}.choice_set' or any(text == d + s for d in (it.util, it.avail) for s in ('', '.keys()', '.items()')):
+        return 'all', text
+    return None
+
+
+_WHAT = {'members': 'the alternatives of one nest', 'alone': 'the alternatives in no nest', 'all': 'the whole choice set'}
+
+
+def _positional_pairing(ctx: Ctx, rule: str) -> bool:
+    """In the MEV builders, a comprehension over zip(...) that puts an availability guard and a utility term side by side pairs
+    them BY POSITION: the k-th guard with the k-th term.  The guard of a term is the availability of the same alternative only
+    if both sequences run over the same collection of alternatives.  Decided on the resolved structure: every zipped sequence
+    is either a collection of alternatives itself (its variable indexes the utilities / availabilities in the element) or a
+    local list defined once, never changed, by one comprehension without filter over a collection of alternatives (its elements
+    carry util[i] / availability[i] of that collection).  A guard over one kind of collection (the whole choice set, say)
+    paired with a term over another kind (the alternatives of one nest) contradicts the property; identical collections
+    discharge the obligation; anything else is left to the other rules (nothing is said).  Returns True when a contradiction
+    has been reported."""
+    from ..core import inline_locals
+    from .c05 import BUILDERS
+
+    def subscripts(e: ast.AST, table: str) -> list[ast.expr]:
+        return [x.slice for x in ast.walk(e) if isinstance(x, ast.Subscript) and isinstance(x.value, ast.Name) and x.value.id == table]
+
+    def loads(e: ast.AST, name: str) -> bool:
+        return any(isinstance(x, ast.Name) and x.id == name and isinstance(x.ctx, ast.Load) for x in ast.walk(e))
+
+    found = False
+    for mod, name, _ in BUILDERS + [(NESTED, 'get_mev_generating_for_nested', False)]:
+        f = ctx.prog.func(mod, name)
+        it = analyse(f)
+        ut, av = it.util, it.avail
+        for comp in walk_no_nested(f.node):
+            if not isinstance(comp, (ast.ListComp, ast.GeneratorExp)) or len(comp.generators) != 1 or comp.generators[0].ifs:
+                continue
+            gen = comp.generators[0]
+            try:
+                z = inline_locals(f.node, gen.iter)
+                elt = inline_locals(f.node, comp.elt)
+            except Exception:  # noqa
+                continue
+            while isinstance(z, ast.Call) and isinstance(z.func, ast.Name) and z.func.id in ('list', 'tuple', 'iter') and len(z.args) == 1 and not z.keywords:
+                z = z.args[0]
+            if not (isinstance(z, ast.Call) and isinstance(z.func, ast.Name) and z.func.id == 'zip' and len(z.args) >= 2
+                    and all(k.arg == 'strict' for k in z.keywords) and not any(isinstance(a, ast.Starred) for a in z.args)):
+                continue
+            if not isinstance(gen.target, ast.Tuple) or len(gen.target.elts) != len(z.args) or not all(isinstance(t, ast.Name) for t in gen.target.elts):
+                continue
+            # (role, kind of collection, text of the collection) of what each zipped sequence contributes to the element
+            guards: list[tuple[str, str]] = []
+            terms: list[tuple[str, str]] = []
+            readable = True
+            for tg, arg in zip(gen.target.elts, z.args):
+                if not loads(elt, tg.id):
+                    continue
+                a = arg
+                while isinstance(a, ast.Call) and isinstance(a.func, ast.Name) and a.func.id in ('list', 'tuple', 'iter') and len(a.args) == 1 and not a.keywords:
+                    a = a.args[0]
+                if isinstance(a, (ast.ListComp, ast.GeneratorExp)):
+                    # a list of the function, defined once and not changed (inline_locals has put its definition here)
+                    if len(a.generators) != 1 or a.generators[0].ifs or a.generators[0].is_async:
+                        readable = False
+                        continue
+                    g = a.generators[0]
+                    coll = _alternatives_of(it, g.iter)
+                    var = g.target if isinstance(g.target, ast.Name) else (g.target.elts[0] if isinstance(g.target, ast.Tuple) and g.target.elts and coll and coll[1].endswith('.items()') else None)
+                    if coll is None or not isinstance(var, ast.Name):
+                        readable = False
+                        continue
+                    for table, roles in ((av, guards), (ut, terms)):
+                        idx = subscripts(a.elt, table)
+                        if idx and all(isinstance(s, ast.Name) and s.id == var.id for s in idx):
+                            roles.append(coll)
+                        elif idx:
+                            readable = False
+                else:
+                    coll = _alternatives_of(it, a)
+                    for table, roles in ((av, guards), (ut, terms)):
+                        idx = [s for s in subscripts(elt, table) if isinstance(s, ast.Name) and s.id == tg.id]
+                        if idx and coll is not None and not coll[1].endswith('.items()'):
+                            roles.append(coll)
+                        elif idx:
+                            readable = False
+            if not guards or not terms:
+                continue
+            clash = next(((g, t) for g in guards for t in terms if g[0] != t[0]), None)
+            if clash is not None:
+                (gk, gt), (tk, tt) = clash
+                found = True
+                ctx.add(rule, f'{name}:pairing', False, (f.file, comp.lineno),
+                        f'zip pairs the availability conditions and the terms of the sum by position, but the conditions run over {gt} ({_WHAT[gk]}) and the terms '
+                        f'over {tt} ({_WHAT[tk]}): the term of the k-th alternative of {tt} is guarded by the availability of the k-th alternative of {gt}, '
+                        f'another alternative, so the sum differs from the one built without availabilities as soon as they are not all 1', detail=unparse(z)[:120], positive=True)
+            elif readable and len({c[1] for c in guards + terms}) == 1 and not any(isinstance(x, ast.Call) and isinstance(x.func, ast.Name) and x.func.id in ('sorted', 'reversed') for x in ast.walk(z)):
+                ctx.add(rule, f'{name}:pairing', True, (f.file, comp.lineno), f'availability conditions and terms paired by position both run over {guards[0][1]}', detail=unparse(z)[:120])
+    return found
+
+
 #: obligations whose failure contradicts the property (rule, construct pattern, why); every other failure is 'not recognised'
 POSITIVE: list[tuple[str, str, str]] = [
     # C06.R1 (degree of a typed term, multiplicity under classified loops), C06.R2 (typed terms that take different values at
@@ -203,7 +312,12 @@ def run(ctx: Ctx) -> None:
         if o.construct.endswith(':branches'):
             nb += 1
             ctx.adopt('C06.R5', o)
-    if nb < 5:
+    paired_wrongly = _positional_pairing(ctx, 'C06.R5')
+    if nb < 5 and paired_wrongly:
+        # a contradiction of the property has been identified in a branch the comparison could not read: that verdict stands, the
+        # pairs of branches that were not found are reported as not recognised next to it
+        ctx.add('C06.R5', 'C06.R5:instances', None, (ctx.obligations[-1].file, 1), f'only {nb} pairs of availability branches found in the MEV builders: some are not in the expected form', 'floor')
+    elif nb < 5:
         raise AnalysisError(f'C06.R5: only {nb} pairs of availability branches found in the MEV builders')
 
     # ---- R4
@@ -318,6 +432,11 @@ MUTANTS = [
     dict(name='legacy conversion uses the nests as choice set', rule='C06.R3', file=_C,
          old='        nests = NestsForCrossNestedLogit(choice_set=list(util), tuple_of_nests=nests)\n\n    ok, message = nests.check_validity()\n    if not ok:\n        raise BiogemeError(message)\n\n    gi_terms: dict',
          new='        nests = NestsForCrossNestedLogit(choice_set=list(nests), tuple_of_nests=nests)\n\n    ok, message = nests.check_validity()\n    if not ok:\n        raise BiogemeError(message)\n\n    gi_terms: dict'),
+    dict(name='G: availability conditions of the choice set zipped with the terms of the nest', rule='C06.R5', file=_N,
+         old='            sum_terms = [\n                ConditionalTermTuple(\n                    condition=availability[i] != Numeric(0),\n                    term=exp(m.nest_param * util[i]),\n                )\n'
+             '                for i in m.list_of_alternatives\n            ]\n            the_sum = ConditionalSum(list_of_terms=sum_terms)\n        terms_for_nests.append(the_sum ** (1.0 / m.nest_param))',
+         new='            plain = [exp(m.nest_param * util[i]) for i in m.list_of_alternatives]\n            sum_terms = [\n                ConditionalTermTuple(condition=availability[i] != Numeric(0), term=t)\n'
+             '                for i, t in zip(nests.choice_set, plain)\n            ]\n            the_sum = ConditionalSum(list_of_terms=sum_terms)\n        terms_for_nests.append(the_sum ** (1.0 / m.nest_param))'),
     dict(name='validity verdict ignored', rule='C06.R3', file=_N,
          old='    ok, message = nests.check_partition()\n    if not ok:\n        raise excep.BiogemeError(message)\n\n    terms_for_nests = []', new='    ok, message = nests.check_partition()\n\n    terms_for_nests = []'),
 ]
